@@ -90,7 +90,7 @@ def run(tier):
             for p in parts:
                 # trailing newline or not, CRLF or LF must not matter for line boundaries
                 sep = "\n"
-                cmds.append("asm 0 %s" % common.hx(sep.join(p) + (sep if rnd.random() < 0.5 else "")))
+                cmds.append("%s 0 %s" % ("asmold" if k % 7 == 3 else "asm", common.hx(sep.join(p) + (sep if rnd.random() < 0.5 else ""))))  # k % 7 == 3: deprecated alias assemble_str()
             cmds.append("getoff 0")
             cmds.append("dump 0 %d %d" % (start, start + L))
             rep2 = rnd.random() < 0.3
